@@ -279,7 +279,7 @@ StringDictionary *StringDictionaryHASHRPF::load(std::istream &in,
     return NULL;
 
   StringDictionaryHASHRPF *dict = new StringDictionaryHASHRPF();
-  dict->type = technique;
+  dict->type = HASHRPF;
   dict->elements = loadValue<uint64_t>(in);
   dict->maxlength = loadValue<uint32_t>(in);
 
